@@ -105,6 +105,15 @@ func NdChoice(name string, n int) int {
 	return v
 }
 
+// NdASCII returns a symbolic byte below 0x80.  Used for bytes that end up inside a
+// JSON string: encoding/json replaces invalid UTF-8 by U+FFFD, which the idealised
+// JSON model of the interpreter does not do, so other values are outside the claim.
+func NdASCII(name string) byte {
+	b := NdByte(name)
+	Assume(b < 0x80)
+	return b
+}
+
 // NdBytes returns n symbolic bytes.
 func NdBytes(name string, n int) []byte {
 	b := make([]byte, n)
